@@ -319,6 +319,18 @@ def check_current(ctx):
               "the renamed file is the one just written", "rename source is not the written temp file")
     check_guard(ctx, "T2-current-rename-after-write", "rename", f, rn,
                 [[("==", "rc", "0")]], "rename tmp -> CURRENT", keep_calls=("ldb_write_file",))
+    # CURRENT is replaced by the rename alone: nothing in this function removes, truncates or rewrites the file the
+    # rename targets (a crash between an unlink and the rename would leave a database without CURRENT)
+    curk = argkey(rn[2], 1)
+    DESTR = ("ldb_remove_file", "ldb_write_file", "ldb_truncfile_create", "ldb_wfile_create", "ldb_appendfile_create",
+             "ldb_truncate_file", "unlink", "remove", "truncate", "ldb_copy_file", "ldb_link_file")
+    hits = [e for b, i, e in f.events("call")
+            if (is_call(e, DESTR) and curk in [argkey(e, k) for k in range(len(e.get("a", ())))]) or
+            (is_call(e, "ldb_rename_file") and argkey(e, 0) == curk)]
+    ctx.check(not hits, "T1-current-replaced-atomically", "only-rename-touches-CURRENT", f.name,
+              site(f, hits[0]) if hits else f.loc, "the CURRENT file is touched only as the target of the rename",
+              "CURRENT (`%s`) is removed / rewritten by %s outside the atomic rename: a crash there leaves no CURRENT"
+              % (curk, [x.get("f") for x in hits]))
     must_pass_before_success(ctx, "T1-current-order", "write->rename", f, None,
                              lambda e: is_call(e, "ldb_rename_file"),
                              "success of ldb_set_current_file implies the rename happened")
